@@ -28,6 +28,21 @@ class CallGraph:
             for i, t in b.calls():
                 for q in Body.callee_qs(t):
                     self.out[b.q].add(q)
+                # functions passed by name (`.map(parse_sample)`) are considered called
+                for a in t["args"]:
+                    fn = (a.get("k") or {}).get("fn")
+                    if fn:
+                        self.out[b.q].add(fn["q"])
+                        if fn.get("resolved"):
+                            self.out[b.q].add(fn["resolved"]["q"])
+            for blk in b.blocks:
+                for st in blk["stmts"]:
+                    if st["k"] == "assign":
+                        rv = st["rv"]
+                        for o in ([rv["a"]] if rv["k"] in ("use", "cast") else rv.get("ops", []) if rv["k"] == "agg" else []):
+                            fn = (o.get("k") or {}).get("fn")
+                            if fn:
+                                self.out[b.q].add(fn["q"])
             # closures defined in b are considered called by b
         for b in facts.bodies:
             if b.kind == "closure" and b.parent_q:
@@ -573,6 +588,17 @@ def _same_value(body, x, y, edge, use_bb):
     return False
 
 
+def _same_len_now(x, y):
+    """both are len() of the same container, evaluated for the same operation (no intervening code)"""
+    px, py = peel(x, through_try=False), peel(y, through_try=False)
+    if px.k == "call" and py.k == "call" and px.args and py.args:
+        nx, ny = (px.q or "").split("::")[-1], (py.q or "").split("::")[-1]
+        if nx == ny == "len":
+            rx, ry = _container_root(px.args[0]), _container_root(py.args[0])
+            return rx is not None and rx == ry
+    return False
+
+
 def _const_of(e):
     e = peel(e, through_try=False)
     if e is not None and e.k == "const" and isinstance(e.v, int) and not isinstance(e.v, bool):
@@ -592,7 +618,7 @@ def known_ge(body, bb, a, b):
     if pa.k == "call" and (pa.q in MAX_CALLS or pa.rq in MAX_CALLS) and any(_same_expr(x, pb) for x in pa.args):
         return True
     # b = a' / c  or  a' - c  or  a' & m  with a' == a  (never larger than a for unsigned values)
-    if pb.k == "bin" and pb.op in ("Div", "Sub", "BitAnd", "Shr", "Rem") and _same_expr(pb.a, pa):
+    if pb.k == "bin" and pb.op in ("Div", "Sub", "BitAnd", "Shr", "Rem") and (_same_expr(pb.a, pa) or _same_len_now(pb.a, pa)):
         return True
     # a = b' + c / b' * c (c >= 1) with b' == b
     if pa.k == "bin" and pa.op == "Add" and (_same_expr(pa.a, pb) or _same_expr(pa.b, pb)):
@@ -633,3 +659,79 @@ def known_ge(body, bb, a, b):
 
 def known_nonzero(body, bb, a):
     return known_ge(body, bb, a, E("const", v=1, ty="usize"))
+
+
+# ---- caller-side discharge (guard lives in the caller of a small helper) ---------------------------
+def subst_params(e, actual, depth=0):
+    """Copy of expression e with `param i` replaced by actual[i] (an expression of the caller)."""
+    if e is None or depth > 30:
+        return e
+    if e.k == "param":
+        return actual.get(e.idx, E("unknown"))
+    n = E(e.k)
+    for sl in E.__slots__[1:]:
+        setattr(n, sl, getattr(e, sl))
+    if e.a is not None:
+        n.a = subst_params(e.a, actual, depth + 1)
+    if e.b is not None:
+        n.b = subst_params(e.b, actual, depth + 1)
+    if e.args:
+        n.args = [subst_params(x, actual, depth + 1) for x in e.args]
+    if e.k == "call":
+        n.bb = None      # a call evaluated in the callee is not a call site of the caller
+    return n
+
+
+def only_params_and_consts(e, depth=0):
+    e = peel(e, through_try=False)
+    if e is None or depth > 12:
+        return False
+    if e.k in ("param",):
+        return True
+    if e.k == "const":
+        return e.v is not None
+    if e.k == "bin":
+        return only_params_and_consts(e.a, depth + 1) and only_params_and_consts(e.b, depth + 1)
+    if e.k == "call" and (e.q or "").split("::")[-1] in ("len",) and e.args:
+        return only_params_and_consts(e.args[0], depth + 1)
+    return False
+
+
+def call_sites_of(facts, body, limit=6):
+    out = []
+    for cb, cbb, t in facts.callers_of(body.q):
+        out.append((cb, cbb, {i + 1: cb.operand_expr(a) for i, a in enumerate(t["args"])}))
+        if len(out) > limit:
+            return None
+    return out
+
+
+def known_ge_at_callers(facts, body, a, b):
+    """a >= b holds at every call site of `body` after substituting the actual arguments (both sides must be
+    arithmetic over parameters, their len() and constants)."""
+    if body.kind == "closure" or not (only_params_and_consts(a) and only_params_and_consts(b)):
+        return False
+    sites = call_sites_of(facts, body)
+    if not sites:
+        return False
+    for cb, cbb, actual in sites:
+        if not known_ge(cb, cbb, subst_params(peel(a, through_try=False), actual), subst_params(peel(b, through_try=False), actual)):
+            return False
+    return True
+
+
+def facts_at_with_callers(facts, body, bb, depth=2):
+    """facts_at(body, bb) plus, for a non-public helper, the facts that hold at EVERY call site (pattern-level
+    consumers only: expressions of different functions are not related to each other)."""
+    out = list(facts_at(body, bb))
+    if depth <= 0 or body.kind == "closure":
+        return out
+    sites = call_sites_of(facts, body)
+    if not sites:
+        return out
+    per_site = []
+    for cb, cbb, actual in sites:
+        per_site.append(facts_at_with_callers(facts, cb, cbb, depth - 1))
+    if len(per_site) == 1:
+        out += per_site[0]
+    return out
